@@ -69,7 +69,13 @@ func (Engine) Generate(r *simcore.RNG, tier string, idx int) *simcore.Plan {
 	p.Config["users"] = r.Range(3, 5)
 	p.Config["allow"] = r.Range(0, 7) // bit i: user i on the force-unlock allow-list
 	p.Config["spread"] = r.Range(0, 2)
+	if r.Chance(0.35) {
+		p.Config["reimport"] = 1 // restarts are restarts from the chain's own export: who owns and administers what must survive it
+	}
 	faults := idx%2 == 1
+	if idx%4 == 3 {
+		p.Config["spec"] = 60 + int64(idx/4%5)*60 // permille of blocks first executed speculatively on a discarded branch (simchain.Node.Spec)
+	}
 	sal := func() int64 { return r.Range(0, 1<<20) }
 	world := func(build bool) simcore.Step {
 		st := simcore.Step{}
@@ -344,6 +350,12 @@ func (Engine) Execute(run *simcore.Run) {
 		}
 		gs[banktypes.ModuleName] = cdc.MustMarshalJSON(&bg)
 	}})
+	n.Spec = run.Plan.Cfg("spec", 0)
+	defer func() {
+		for i := 0; i < n.Specs; i++ {
+			run.Fault("speculative-block-discarded")
+		}
+	}()
 	w := &world{run: run, n: n, users: users, allow: map[int]bool{}, pos: map[uint64]*refPos{}, locks: map[uint64]*refLock{}}
 	for i := 0; i < users; i++ {
 		w.allow[i] = allowMask&(1<<uint(i)) != 0
@@ -397,8 +409,20 @@ func (Engine) Execute(run *simcore.Run) {
 			}
 			dt := time.Duration(1+st.Arg(1)) * time.Second
 			if st.Op == "restart" {
-				n.Restart()
-				run.Fault("restart")
+				if p.Cfg("reimport", 0) == 1 {
+					if err := n.Reimport(); err != nil {
+						// that the export can be imported at all is C19's subject, not C20's: ordinary restart instead
+						run.Probe("restart-from-export-refused")
+						run.Logf("%d reimport refused: %v", i, err)
+						n.Restart()
+						run.Fault("restart")
+					} else {
+						run.Fault("restart-from-export")
+					}
+				} else {
+					n.Restart()
+					run.Fault("restart")
+				}
 			} else {
 				switch st.Arg(0) {
 				case 1:
